@@ -61,9 +61,13 @@ Times(H, sc, k) == IF k = 0 THEN H ELSE Times(ApplyScript(H, sc, 1), sc, k - 1)
 RECURSIVE ValidTimes(_, _, _)
 ValidTimes(H, sc, k) == IF k = 0 THEN TRUE ELSE IF ScriptValid(H, sc, 1) THEN ValidTimes(ApplyScript(H, sc, 1), sc, k - 1) ELSE FALSE
 
-\* a script is structural on a heap if it changes anything but Variable values
-Shape(H) == [i \in 1..Len(H) |-> [k |-> H[i].k, s |-> H[i].s]]
-Structural(H, sc) == ScriptValid(H, sc, 1) /\ Shape(ApplyScript(H, sc, 1)) # Shape(H)
+\* a script is structural on a heap if its *net* effect changes anything but Variable values in the part of the heap that is
+\* reachable from the arguments (an attribute that is added and deleted again leaves the graph definition as it was)
+ReachArgs(H) == Closure(H, {args[a] : a \in 1..Len(args)})
+Structural(H, sc) == /\ ScriptValid(H, sc, 1)
+                     /\ LET H2 == ApplyScript(H, sc, 1) IN
+                        \/ ReachArgs(H2) # ReachArgs(H)
+                        \/ \E i \in ReachArgs(H) : H2[i].s # H[i].s
 Restricted(k) == k \in {"cond", "switch", "while", "fori"}
 Loops(k) == k \in {"while", "fori"}
 
